@@ -538,7 +538,7 @@ pub fn gen_spec(r: &mut Rng) -> SpriteSpec {
             let n = count as usize * tw as usize * th as usize;
             s.tilesets.push(TilesetSpec {
                 id: if r.chance(5, 6) { k as u32 } else { 10 + 3 * k as u32 },
-                flags: 2 | if r.chance(3, 4) { 4 } else { 0 },
+                flags: 2 | if r.chance(3, 4) { 4 } else { 0 } | if r.chance(1, 6) { 1 } else { 0 },
                 count,
                 tw,
                 th,
@@ -546,7 +546,7 @@ pub fn gen_spec(r: &mut Rng) -> SpriteSpec {
                 name: name(r),
                 pixels: pixels(r, fmt, n, &dom),
                 level: r.below(10) as u32,
-                ext: (0, 0),
+                ext: (r.below(5) as u32, if r.chance(1, 2) { r.below(5) as u32 } else { r.next() as u32 }),
             });
         }
     }
@@ -1209,6 +1209,7 @@ pub const BUGS: &[&str] = &[
     "tags-in-later-frame",
     "zlib-split-a",
     "zlib-split-b",
+    "color-profile-icc",
 ];
 
 fn ensure_tilemap(s: &mut SpriteSpec, r: &mut Rng) -> usize {
@@ -2268,6 +2269,10 @@ pub fn apply_bug(s: &mut SpriteSpec, bug: &str, r: &mut Rng, scale: usize) -> St
             }
             format!("{} half of a zlib stream cut between two deflate blocks", if bug == "zlib-split-a" { "first" } else { "second" })
         }
+        "color-profile-icc" => {
+            s.color_profile = Some(*r.pick(&[2u16, 2, 3, 0xFFFF]));
+            "colour profile of ICC / unknown type (ICC payload applied on bytes)".into()
+        }
         "tags-in-later-frame" => {
             if s.durations.len() < 2 {
                 s.durations.push(100);
@@ -2334,6 +2339,30 @@ pub fn encode_with_bug(s: &SpriteSpec, opts: &EncOpts, bug: Option<&str>, r: &mu
                     crate::format::put32(&mut bytes, fstart, fsz);
                     let total = bytes.len() as u32;
                     crate::format::put32(&mut bytes, 0, total);
+                }
+            }
+        }
+        "color-profile-icc" => {
+            // append "ICC length + data" to the colour profile chunk, sometimes with the fixed-gamma flag
+            if let Some(c) = m.chunks.iter().find(|c| c.ctype == 0x2007) {
+                let n = *r.pick(&[0usize, 1, 16, 300]);
+                let lie = r.chance(1, 3);
+                let mut ins = Vec::new();
+                ins.extend_from_slice(&(if lie { 0xFFFF_FFFFu32 } else { n as u32 }).to_le_bytes());
+                ins.extend(std::iter::repeat(0xABu8).take(n));
+                let at = c.off + c.size;
+                let (fstart, _) = m.frames[c.frame];
+                let tail = bytes.split_off(at);
+                bytes.extend_from_slice(&ins);
+                bytes.extend_from_slice(&tail);
+                let csz = crate::format::get(&bytes, c.off, 4) as u32 + ins.len() as u32;
+                crate::format::put32(&mut bytes, c.off, csz);
+                let fsz = crate::format::get(&bytes, fstart, 4) as u32 + ins.len() as u32;
+                crate::format::put32(&mut bytes, fstart, fsz);
+                let total = bytes.len() as u32;
+                crate::format::put32(&mut bytes, 0, total);
+                if r.chance(1, 3) {
+                    crate::format::put16(&mut bytes, c.off + 8, 1); // fixed gamma flag
                 }
             }
         }
